@@ -50,10 +50,10 @@ def run(ck, ctx):
     # ---------------------------------------------------------------- C33.3 register semantics
     kbsr, kbdr, dsr, ddr = isa["KBSR"], isa["KBDR"], isa["DSR"], isa["DDR"]
     nf.expect_deep(ck, F, "C33.3", "keyboard-io_read", KW + "io_read",
-                   ["[arg2 in [0,65535]] => Option::None() ; [arg2 in [%d,%d]] => Option::Some(BitOr(Shl(from(KeyboardDevice::interrupts_enabled(deref(arg1))), 14), Shl(from(KeyboardDevice::ready(deref(arg1))), 15))) ; "
+                   ["[arg2 in [0,65535]] => Option::None() ; [arg2 in [%d,%d]] => Option::Some(BitOr(Shl((KeyboardDevice::interrupts_enabled(deref(arg1)) as u16), 14), Shl((KeyboardDevice::ready(deref(arg1)) as u16), 15))) ; "
                     "[arg2 in [%d,%d] & arg3 in [0,0]] => Option::map(KeyboardDevice::get_input(deref(arg1)), fn:from) ; [arg2 in [%d,%d] & arg3 in [1,1]] => Option::map(KeyboardDevice::pop_input(deref_mut(arg1)), fn:from)" % (kbsr, kbsr, kbdr, kbdr, kbdr, kbdr)],
                    "KBSR = ready<<15 | ie<<14; KBDR consumes only when the access is effectful", file="src/sim/device/keyboard.rs")
-    nf.expect_deep(ck, F, "C33.3", "display-io_read", DW + "io_read", ["[arg2 in [0,65535]] => Option::None() ; [arg2 in [%d,%d]] => Option::Some(Shl(from(DisplayDevice::ready(deref(arg1))), 15))" % (dsr, dsr)],
+    nf.expect_deep(ck, F, "C33.3", "display-io_read", DW + "io_read", ["[arg2 in [0,65535]] => Option::None() ; [arg2 in [%d,%d]] => Option::Some(Shl((DisplayDevice::ready(deref(arg1)) as u16), 15))" % (dsr, dsr)],
                    "DSR = ready<<15", file="src/sim/device/display.rs")
     nf.expect_deep(ck, F, "C33.3", "display-io_write", DW + "io_write", ["[arg2 in [0,65535]] => 0 ; [arg2 in [%d,%d]] => DisplayDevice::send_output(deref_mut(arg1), (arg3 as u8))" % (ddr, ddr)],
                    "a DDR write sends the low byte", file="src/sim/device/display.rs")
